@@ -15,7 +15,8 @@
    kind: 0 bulk (no positions)  1 contiguous UMI/barcode  2 scattered UMI/barcode
          3 composite (two protocols tried on the same pair; covered by K only)
          4 restriction-bisulfite (contiguous plus enzyme / ISPCR tags; covered by K only)            *)
-From Coq Require Import ZArith List.
+From Coq Require Import ZArith NArith List.
+From Coq Require Strings.Byte.
 Import ListNotations.
 From SCMO Require Import Lib.PySlice Model.C02Defs.
 Open Scope Z_scope.
@@ -82,4 +83,41 @@ Definition protocols : list protocol := [
   (* '3bp umi followed by 8bp barcode, no CA overhang in barcodes'; ligation tag = the two bases after
      the barcode; as in DamID2 the insert starts on the last barcode base (constructor comment) *)
   Pr "DamID2_8bp_noCA" 1 [(0, 3, 8)] [(0, 0, 3)] None (Some (0, 11, 2)) [10; 0] (1, 2) []
+].
+
+(* the sub-protocols ("arms") the composite strategies try on the same pair, in the order
+   [DamID / ChIC arm; transcriptome arm].  Hand-written from the class descriptions:
+   TCHIC / CHICTV: scCHIC layout without random primer, pairs only ('3bp umi followed by 8bp barcode and a
+   single A'); DamAndT: 'DamID2 and CS2 Transcriptome'; DamID2andT_3u4b3u4b: '3bp UMI, 4bp CB, 3bp UMI, 4bp CB'
+   for both arms; DamID2andT_3u4b3u6b: DamID arm '3bp UMI, 4bp CB, 3bp UMI, 6bp CB', transcriptome arm 4+4. *)
+Definition chic_arm : playout := mkP [(0, 3, 8)] [(0, 0, 3)] None (Some (0, 11, 2)) [12; 0] 2 2.
+Definition sca8_arm : playout := mkP [(0, 3, 4); (0, 10, 4)] [(0, 0, 3); (0, 7, 3)] None (Some (0, 14, 2)) [14; 0] 1 2.
+Definition sca10_arm : playout := mkP [(0, 3, 4); (0, 10, 6)] [(0, 0, 3); (0, 7, 3)] None (Some (0, 16, 2)) [16; 0] 1 2.
+Definition comp_protocols : list (sname * list playout) := [
+  ("ILLU", []);
+  ("TCHIC", [chic_arm]);
+  ("CHICTV", [chic_arm]);
+  ("DamAndT", [mkP [(0, 3, 10)] [(0, 0, 3)] None (Some (0, 11, 2)) [12; 0] 1 2;
+               mkP [(0, 6, 8)] [(0, 0, 6)] (Some (1, 0, 6)) None [14; 6] 2 2]);
+  ("DamID2andT_3u4b3u4b", [sca8_arm; sca8_arm]);
+  ("DamID2andT_3u4b3u6b", [sca10_arm; sca8_arm])
+].
+
+(* the literals of the composite strategies, pinned by hand from the sources' comments / descriptions at the
+   pinned commit ('Trim any trailing A and G bases from the end and # Trim down 3 bases', 'Check if the TSO
+   oligo is present', 'Prune the poly T off R1 start', 'Contains expected bleedthrough sequence' ...).
+   Order as in Model/C02Comp.comp_consts. *)
+Definition S (x : sname) : list Z := map (fun b => Z.of_N (Byte.to_N b)) (sname_to x).
+Definition dna_complement : list (list Z) :=
+  map (fun p => [fst p; snd p])
+      (combine (S "ACGNTacgnt") (S "TGCNAtgcna")).
+Definition comp_literals : list (sname * list (list Z)) := [
+  ("ILLU", []);
+  ("TCHIC", [S "TCHIC"; S "AAAAAAAAAA"; S "GGGGGGGGGG"; [6]; S "GA"; [3]; S "TTTTTTTTTTTTTTTTTTTTTTT";
+             S "AGTCCGACGAT"; [30]; S "GTTCTACAGT"; [30]; S "TAATACGACTCACTATAGGG"; [];
+             S "TTTTT"; S "CHIC"; S "VASA"; S "VASA"; S "T7_found"] ++ dna_complement);
+  ("CHICTV", [S "CTV"; S "AGACTCTTT"; [6]]);
+  ("DamAndT", [S "DamID2"; S "CS2C8U6"; [0]; S "Ambiguous"; S "RNA"; S "DamID"; S "T"]);
+  ("DamID2andT_3u4b3u4b", [S "DamID2_3u4b3u6b"; S "DamID2_3u4b3u6b"; [0]; S "Ambiguous"; S "RNA"; S "DamID"; S "T"]);
+  ("DamID2andT_3u4b3u6b", [S "DamID2_3u4b3u6b"; S "DamID2_3u4b3u6b"; [1]; []; S "RNA"; S "DamID"; S "T"])
 ].
